@@ -280,7 +280,12 @@ func (r *rewriter) apply(start, end int, edits []edit) string {
 func (r *rewriter) stmtsText(list []ast.Stmt) string {
 	var b strings.Builder
 	for _, s := range list {
-		b.WriteString(r.text(s))
+		// the statement itself may need rewriting (text only looks at descendants)
+		if repl, ok := r.transform(s); ok {
+			b.WriteString(repl)
+		} else {
+			b.WriteString(r.text(s))
+		}
 		b.WriteString("\n")
 	}
 	return b.String()
